@@ -201,7 +201,8 @@ def run_quiet(prop, scenario):
                                   ('explained_before', 'object_explained_another_log_before'), ('reconf', 'object_used_under_another_sampling_period_before'),
                                   ('surplus_named', 'data_set_has_columns_named_like_assertions'),
                                   ('late_config', 'object_configured_after_parse'),
-                                  ('const_bounds', 'interval_bounds_as_named_constants')):
+                                  ('const_bounds', 'interval_bounds_as_named_constants'),
+                                  ('empty_poll', 'update_without_any_new_sample')):
                     if _M.ENV_FIRED.get(k_):
                         res.faults[name_] += 1
             res.cpu_s = time.process_time() - cpu0
@@ -272,6 +273,8 @@ def _draw_env(prop, rng, scenario):
             env['late_config'] = True
         if rng.random() < 0.08 and 'const_bounds' not in out:
             env['const_bounds'] = rng.randrange(1 << 30)
+        if rng.random() < 0.12 and 'empty_poll' not in out:
+            env['empty_poll'] = rng.randrange(1 << 30)
         if env:
             scenario['_env'] = env
 
